@@ -134,6 +134,8 @@ func TestVerifC15Splits(t *testing.T) {
 			t.Fatalf("bad replay case: %v", err)
 		}
 		if msg := vf15RunSplit(cf, cs); msg != "" {
+			// printed again so that the replay record the driver rewrites keeps the case
+			fmt.Printf("VERIF-REPLAY-CASE: %s\n", rc)
 			t.Fatalf("%s", msg)
 		}
 		return
